@@ -663,6 +663,7 @@ package edwards25519
 //@   ensures [zero] ev4(result.s) == 0
 
 //@ func (*Scalar).Set(s, x)
+//@   sensures result == s && eqlimbs(s, x)
 //@   leak none
 //@   mode lia
 //@   assigns *s
@@ -697,6 +698,7 @@ package edwards25519
 //@   ensures [value] ev4(s.s) == (0 - ev4(x.s)) % L
 
 //@ func (*Scalar).Multiply(s, x, y)
+//@   sensures result == s && cong(sval(s), sval(x) * sval(y), L)
 //@   leak none
 //@   mode lia
 //@   requires [reduced] sinv(x) && sinv(y)
@@ -1212,3 +1214,24 @@ package edwards25519
 //@   requires [consts] cong(lv(z0), 0, P) && cong(lv(o1), 1, P)
 //@   assigns *v
 //@   ensures [id] repA(v, z0, o1)
+
+
+// ---------------------------------------------------------------- Scalar.Invert (property C07): arithmetic in Z/l
+// Tier "Z/l" (ring mode with the prime l): a Scalar is an opaque value sval(s) = ev4(s.s)*RINV mod l.  The `sensures`
+// views of Multiply/Set restate their Montgomery-form contracts in that vocabulary (ev4 = sval*R and R is a unit mod l).
+// pow2k is proved for the five repetition counts the addition chain uses.
+//@ func (*Scalar).pow2k(s, k)
+//@   mode ring mod=L opaque=Scalar view=scalar
+//@   leak none
+//@   public k
+//@   entrysplit k in {4, 5, 6, 10, 128}
+//@   requires [counts] k == 4 || k == 5 || k == 6 || k == 10 || k == 128
+//@   assigns *s
+//@   ensures [value] cong(sval(s), fpow(sval(old(s)), 2^k), L)
+
+//@ func (*Scalar).Invert(s, t)
+//@   mode ring mod=L opaque=Scalar view=scalar
+//@   leak none
+//@   assigns *s
+//@   ensures [receiver] result == s
+//@   ensures [value] cong(sval(s), fpow(sval(t), L - 2), L)
